@@ -173,7 +173,12 @@ func (l *GradientLimit) OnSample(startTime int64, rtt int64, inFlight int, didDr
 	// so set to 1.0 to indicate no queuing.  Otherwise calculate the slope and don't
 	// allow it to be reduced by more than half to avoid aggressive load-shedding due to
 	// outliers.
-	gradient := math.Max(0.5, math.Min(1.0, l.rttTolerance*float64(rttNoLoad)/float64(rtt)))
+	// A zero RTT carries no queueing information and would turn the quotient into NaN (0/0), which would stick
+	// in the estimate for ever: treat it as "no queueing".
+	gradient := 1.0
+	if rtt > 0 {
+		gradient = math.Max(0.5, math.Min(1.0, l.rttTolerance*float64(rttNoLoad)/float64(rtt)))
+	}
 
 	var newLimit float64
 	// Reduce the limit aggressively if there was a drop
